@@ -10,6 +10,7 @@ query and generate the body of the `FETCH` response IMAP message.
 #
 import email.utils
 import logging
+import re
 from email.header import Header
 from email.message import EmailMessage, Message
 from enum import StrEnum
@@ -83,6 +84,13 @@ def encode_header(hdr: str) -> bytes:
     result = result.replace(b"\\", b"\\\\").replace(b'"', b'\\"')
     result = result.replace(b"\r", b" ").replace(b"\n", b" ")
     return b'"' + result + b'"'
+
+
+########################################################################
+#
+# What can be sent as an atom as it is (rfc3501 `ATOM-CHAR`s)
+#
+_ATOM_RE = re.compile(r"^[^\x00-\x20\x7f-\xff(){%*\"\\\]]+$")
 
 
 ########################################################################
@@ -249,7 +257,12 @@ class FetchAtt:
                     #
                     if isinstance(s, (list, tuple)):
                         sect = str(s[0]).upper()
-                        paren = " ".join(x for x in s[1])
+                        # (a header field name the client sent as a string
+                        # because it is not an atom has to go back as one.)
+                        #
+                        paren = " ".join(
+                            x if _ATOM_RE.match(x) else quoted(x) for x in s[1]
+                        )
                         sects.append(f"{sect} ({paren})")
                     else:
                         sects.append(str(s).upper())
